@@ -141,13 +141,13 @@ Definition step_k (x : sctx) (p : pstate) (s : server) (cmd : command) : res her
 Ltac norm_state x st fd out buf fds :=
   change (mechanism (s_common (mkS x st fd out buf fds))) with (x_mech x);
   change (s_can_pass_fd (mkS x st fd out buf fds)) with (x_fdcap x);
+  change (s_client_uid (mkS x st fd out buf fds)) with (x_uid x);
   rewrite ?auth_ok_norm, ?rejected_norm, ?unsupported_norm, ?data_request_norm, ?check_external_norm.
 
 Lemma opt_mech_eqb_name : forall (mm m : mech), mech_eqb mm m = lbeq (mech_str mm) (mech_name m).
 Proof. destruct mm, m; reflexivity. Qed.
 
 Lemma step_sim : forall x p fd out buf fds cmd,
-  bare_data_unknown_creds x p (cmd_abs cmd) = false ->
   match sstep x p (cmd_abs cmd) with
   | Next p' r a =>
       exists line, renders x r line /\
@@ -157,7 +157,7 @@ Lemma step_sim : forall x p fd out buf fds cmd,
   | Unclear => step_k x p (mkS x (conc_step x p) fd out buf fds) cmd = Err EHandshake
   end.
 Proof.
-  intros x p fd out buf fds cmd HK.
+  intros x p fd out buf fds cmd.
   destruct p; unfold step_k, conc_step.
   - (* waiting for AUTH *)
     destruct cmd as [[mm|] [id|]| | |[d|]|e| |ms|gg|]; unfold handle_auth_k; cbv beta iota zeta;
@@ -179,7 +179,6 @@ Proof.
       destruct (lbeq (mech_str mm) (mech_name (x_mech x))) eqn:E; cbn [negb];
         (eexists; split; [|rewrite orb_false_r; reflexivity]; constructor).
   - (* waiting for DATA *)
-    unfold bare_data_unknown_creds in HK.
     destruct cmd as [[mm|] [id|]| | |[d|]|e| |ms|gg|]; unfold handle_auth_data_k; cbn [cmd_abs sstep];
       destruct (x_mech x) eqn:Em; cbv beta iota zeta;
       norm_state x (WaitingForData External) fd out buf fds;
@@ -195,9 +194,9 @@ Proof.
     + (* ANONYMOUS, DATA id *)
       unfold claim. rewrite Em. eexists; split; [|rewrite orb_false_r; reflexivity]; constructor.
     + (* EXTERNAL, bare DATA *)
-      unfold claim_empty. rewrite Em in *. cbn [cmd_abs] in HK.
-      destruct (x_uid x) eqn:Eu; [|discriminate].
-      eexists; split; [|rewrite orb_false_r; reflexivity]; constructor.
+      unfold claim_empty. rewrite Em.
+      destruct (x_uid x) eqn:Eu;
+        (eexists; split; [|rewrite orb_false_r, ?Em; reflexivity]; rewrite <- ?Em; constructor).
     + (* ANONYMOUS, bare DATA *)
       unfold claim_empty. rewrite Em. eexists; split; [|rewrite orb_false_r; reflexivity]; constructor.
   - (* waiting for BEGIN *)
@@ -223,20 +222,11 @@ Lemma step_shape : forall x p fd out buf fds cmd,
   \/ step_k x p (mkS x (conc_step x p) fd out buf fds) cmd = Err EHandshake.
 Proof.
   intros x p fd out buf fds cmd.
-  destruct (bare_data_unknown_creds x p (cmd_abs cmd)) eqn:K.
-  - (* the bare DATA with unknown credentials: the code answers OK *)
-    unfold bare_data_unknown_creds in K.
-    destruct p; try discriminate.
-    destruct (cmd_abs cmd) as [| [| |] | | | | | |] eqn:Ec; try discriminate.
-    destruct (x_mech x) eqn:Em; try discriminate.
-    destruct cmd as [[mm|] [id|]| | |[d|]|e| |ms|gg|]; try discriminate.
-    left. unfold step_k, conc_step. rewrite Em. unfold handle_auth_data_k. rewrite auth_ok_norm.
-    do 3 eexists. split; [reflexivity|]. right. exists PBegin. reflexivity.
-  - pose proof (step_sim x p fd out buf fds cmd K) as H.
-    destruct (sstep x p (cmd_abs cmd)) as [p' r a| |].
-    + destruct H as [line [_ H]]. left. do 3 eexists. split; [exact H|]. right. exists p'. reflexivity.
-    + left. do 3 eexists. split; [exact H|]. left. reflexivity.
-    + right. exact H.
+  pose proof (step_sim x p fd out buf fds cmd) as H.
+  destruct (sstep x p (cmd_abs cmd)) as [p' r a| |].
+  - destruct H as [line [_ H]]. left. do 3 eexists. split; [exact H|]. right. exists p'. reflexivity.
+  - left. do 3 eexists. split; [exact H|]. left. reflexivity.
+  - right. exact H.
 Qed.
 
 (* ---------------------------------------------------------------- the spec's line cutter against the code's *)
@@ -293,7 +283,7 @@ Proof.
   rewrite Hk, Hf. reflexivity.
 Qed.
 
-Lemma line_pure_cut_empty : forall s rest, cut_line s = Some ([], rest) -> line_pure false s = Some (Panic PArith).
+Lemma line_pure_cut_empty : forall s rest, cut_line s = Some ([], rest) -> line_pure false s = Some (Err EHandshake).
 Proof.
   intros s rest Hc. destruct (cut_line_some _ _ _ Hc) as [Hp _]. unfold line_pure. rewrite Hp. reflexivity.
 Qed.
@@ -343,31 +333,11 @@ Proof.
   intros. cbn [perform mkS s_step s_common]. unfold pending, pending_fds. cbn. rewrite !app_nil_r. reflexivity.
 Qed.
 
-(* ---------------------------------------------------------------- no fuel exhaustion; no panic without a bare LF *)
-Lemma ela_cut : forall s seg rest b,
-  cut_line s = Some (seg, rest) -> seg <> [] -> empty_line_ahead s b = empty_line_ahead rest true.
-Proof.
-  induction s as [|c r IH]; intros seg rest b Hc Hne; [discriminate|].
-  cbn in Hc. cbn [empty_line_ahead]. destruct (beq c x0a) eqn:E.
-  - injection Hc as <- <-. contradiction.
-  - destruct (cut_line r) as [[l rest']|] eqn:Ec; [|discriminate]. injection Hc as <- <-.
-    destruct l as [|a l].
-    + destruct r as [|c2 r2]; [discriminate|]. cbn in Ec. cbn [empty_line_ahead].
-      destruct (beq c2 x0a); [injection Ec as <-; reflexivity|].
-      destruct (cut_line r2) as [[? ?]|]; discriminate.
-    + apply (IH _ _ false eq_refl). discriminate.
-Qed.
-
-Lemma ela_cut_empty : forall s rest, cut_line s = Some ([], rest) -> empty_line_ahead s true = true.
-Proof.
-  intros s rest Hc. destruct s as [|c r]; [discriminate|]. cbn in *.
-  destruct (beq c x0a); [reflexivity|]. destruct (cut_line r) as [[? ?]|]; discriminate.
-Qed.
-
+(* ---------------------------------------------------------------- no fuel exhaustion, no panic *)
 Lemma safe_norm : forall fuel x st fd out buf fds,
   2 + length buf <= fuel -> (st = SDone \/ exists p, st = conc_step x p) ->
   (forall w, perform fuel (mkS x st fd out buf fds) <> OErr EFuel w) /\
-  (empty_line_ahead buf true = false -> forall w, perform fuel (mkS x st fd out buf fds) <> OPanic w).
+  (forall w, perform fuel (mkS x st fd out buf fds) <> OPanic w).
 Proof.
   induction fuel as [|f IH]; intros x st fd out buf fds Hf Hst; [lia|].
   destruct Hst as [-> | [p ->]].
@@ -376,22 +346,18 @@ Proof.
     destruct (cut_line buf) as [[seg rest]|] eqn:Hc.
     + destruct (rev seg) as [|last rbody] eqn:Hr.
       * assert (seg = []) by (apply rev_nil_iff; exact Hr). subst seg.
-        rewrite (line_pure_cut_empty _ _ Hc). split; [intros; discriminate|].
-        intro He. rewrite (ela_cut_empty _ _ Hc) in He. discriminate.
+        rewrite (line_pure_cut_empty _ _ Hc). split; intros; discriminate.
       * rewrite (line_pure_cut _ _ _ _ _ Hc Hr).
-        assert (Hne : seg <> []) by (intro; subst; discriminate).
         pose proof (cut_line_shorter _ _ _ Hc) as Hlen.
         destruct (negb (beq last CR)) eqn:Ecr; [split; intros; discriminate|].
         destruct (negb (utf8_valid (rev rbody ++ [last; LF]))); [split; intros; discriminate|].
         destruct (command_of_str (rev rbody ++ [last; LF])) as [cmd|e|pp] eqn:Ecmd; cbn [map_res].
         -- destruct (step_shape x p fd out rest fds cmd) as [[st' [fd' [out' [Hs Hst']]]] | Hs]; rewrite Hs.
            ++ assert (Hf' : 2 + length rest <= f) by lia.
-              destruct (IH x st' fd' out' rest fds Hf' Hst') as [A Bp]. split; [exact A|].
-              intro He. apply Bp. rewrite <- (ela_cut _ _ _ true Hc Hne). exact He.
+              exact (IH x st' fd' out' rest fds Hf' Hst').
            ++ split; intros; discriminate.
         -- destruct (command_of_str_err _ _ Ecmd); subst; split; intros; discriminate.
-        -- exfalso. apply negb_false_iff in Ecr. apply beq_eq in Ecr. subst last.
-           pose proof (command_of_line (rev rbody)) as Hl. unfold CRLF in Hl. rewrite Ecmd in Hl. exact Hl.
+        -- exfalso. exact (command_of_str_no_panic _ _ Ecmd).
     + rewrite (line_pure_none _ _ (cut_line_none _ Hc)). split; intros; discriminate.
 Qed.
 
@@ -413,36 +379,33 @@ Lemma simulate : forall fuel_m x fds fuel_s p fd out rs buf v k,
 Proof.
   induction fuel_m as [|f IH]; intros x fds fuel_s p fd out rs buf v k Hfm Hfs Hw Hspec; [lia|].
   destruct fuel_s as [|fs]; [lia|].
-  cbn [spec_loop] in Hspec. rewrite perform_norm.
+  cbn [spec_loop] in Hspec.
+  (* whatever happens, the code does not panic *)
+  assert (Hsafe : forall w, perform (S f) (mkS x (conc_step x p) fd out buf fds) <> OPanic w).
+  { apply (safe_norm (S f) x (conc_step x p) fd out buf fds Hfm). right. exists p. reflexivity. }
+  rewrite perform_norm in *.
   destruct (cut_line buf) as [[seg rest]|] eqn:Hc.
   2:{ (* the stream ends inside a line *)
       injection Hspec as <- <-. rewrite (line_pure_none _ _ (cut_line_none _ Hc)).
       split; [|discriminate]. intros _. cbn. apply written_exact. exact Hw. }
   pose proof (cut_line_shorter _ _ _ Hc) as Hlen.
   destruct (rev seg) as [|last rbody] eqn:Hr.
-  { (* bare LF *)
-    injection Hspec as <- <-. split; discriminate. }
-  assert (Hne : seg <> []) by (intro; subst; discriminate).
-  rewrite (line_pure_cut _ _ _ _ _ Hc Hr).
+  { (* bare LF: an error *)
+    assert (seg = []) by (apply rev_nil_iff; exact Hr). subst seg.
+    injection Hspec as <- <-. rewrite (line_pure_cut_empty _ _ Hc). split; [reflexivity | discriminate]. }
+  rewrite (line_pure_cut _ _ _ _ _ Hc Hr) in *.
   change x0d with CR in Hspec.
   destruct (negb (beq last CR)) eqn:Ecr.
   { (* LF without CR *)
-    unfold unclear_exit in Hspec. injection Hspec as <- <-. split; [intros _; reflexivity | ].
-    cbn [first_some]. destruct (empty_line_ahead rest true); discriminate. }
+    injection Hspec as <- <-. split; [intros _; reflexivity | discriminate]. }
   apply negb_false_iff in Ecr. apply beq_eq in Ecr. subst last.
   destruct (negb (is_ascii (rev rbody))) eqn:Easc.
   { (* a line with non-ASCII bytes: only "no panic" is demanded *)
-    unfold unclear_exit in Hspec. injection Hspec as <- <-. cbn [first_some]. split.
-    - intro Hk. destruct (empty_line_ahead rest true) eqn:He; [discriminate|].
-      apply conforms_unclear.
-      assert (Hs := safe_norm (S f) x (conc_step x p) fd out buf fds Hfm (or_intror (ex_intro _ p eq_refl))).
-      destruct Hs as [_ Hs]. rewrite perform_norm, (line_pure_cut _ _ _ _ _ Hc Hr) in Hs.
-      rewrite beq_refl in Hs. apply Hs. rewrite (ela_cut _ _ _ true Hc Hne). exact He.
-    - destruct (empty_line_ahead rest true); discriminate. }
+    injection Hspec as <- <-. split; [|discriminate]. intros _. apply conforms_unclear. exact Hsafe. }
   apply negb_false_iff in Easc.
   assert (Hutf : utf8_valid (rev rbody ++ [CR; LF]) = true).
   { apply ascii_utf8. rewrite is_ascii_app, Easc. reflexivity. }
-  rewrite Hutf. cbn [negb].
+  rewrite Hutf in *. cbn [negb] in *.
   pose proof (command_of_line (rev rbody)) as Hcmd. unfold CRLF in Hcmd.
   destruct (command_of_str (rev rbody ++ [CR; LF])) as [cmd|e|pp]; [|cbn [map_res]|contradiction].
   2:{ (* not a well-formed command: the code gives up *)
@@ -451,16 +414,10 @@ Proof.
       - destruct (spec_loop fs x p' (fd || a) (rs ++ [r]) rest) as [v' k']. injection Hspec as <- <-.
         split; [discriminate | reflexivity].
       - injection Hspec as <- <-. split; [discriminate | reflexivity].
-      - unfold unclear_exit in Hspec. injection Hspec as <- <-. split; [discriminate | reflexivity]. }
-  destruct Hcmd as [Hwf Habs]. rewrite Hwf in Hspec. cbn [negb map_res] in Hspec |- *.
-  rewrite <- Habs in Hspec.
-  destruct (bare_data_unknown_creds x p (cmd_abs cmd)) eqn:Hbare.
-  { (* the second known class: nothing is claimed *)
-    destruct (sstep x p (cmd_abs cmd)) as [p' r a| |].
-    - destruct (spec_loop fs x p' (fd || a) (rs ++ [r]) rest) as [v' k']. injection Hspec as <- <-. split; discriminate.
-    - injection Hspec as <- <-. split; discriminate.
-    - unfold unclear_exit in Hspec. injection Hspec as <- <-. split; discriminate. }
-  pose proof (step_sim x p fd out rest fds cmd Hbare) as Hstep.
+      - injection Hspec as <- <-. split; [discriminate | reflexivity]. }
+  destruct Hcmd as [Hwf Habs]. rewrite Hwf in Hspec. cbn [negb map_res] in Hspec, Hsafe |- *.
+  rewrite Habs in Hspec.
+  pose proof (step_sim x p fd out rest fds cmd) as Hstep.
   destruct (sstep x p (cmd_abs cmd)) as [p' r a| |].
   - (* a reply and a next state on both sides *)
     destruct Hstep as [line [Hren Hstep]]. rewrite Hstep.
@@ -474,8 +431,7 @@ Proof.
     destruct f as [|f']; [lia|]. rewrite perform_done. split; [|discriminate].
     intros _. cbn. rewrite (written_exact _ _ _ Hw), Bool.eqb_reflx, lbeq_refl, list_N_eqb_refl. reflexivity.
   - (* a claimed identity that is no uid: the code gives up *)
-    rewrite Hstep. unfold unclear_exit in Hspec. injection Hspec as <- <-. cbn [first_some]. split; [intros _; reflexivity|].
-    destruct (empty_line_ahead rest true); discriminate.
+    rewrite Hstep. injection Hspec as <- <-. split; [intros _; reflexivity | discriminate].
 Qed.
 
 (* ---------------------------------------------------------------- the first line: the NUL byte *)
@@ -500,7 +456,7 @@ Proof.
   change (nth 0 (c :: s') NUL) with c. apply beq_neq in Hn. rewrite Hn. reflexivity.
 Qed.
 
-Lemma line_pure_first_lf : forall s', line_pure true (LF :: s') = Some (Panic PArith).
+Lemma line_pure_first_lf : forall s', line_pure true (LF :: s') = Some (Err EHandshake).
 Proof. reflexivity. Qed.
 
 (* the server as Builder::build starts it, with the whole stream already in the buffer *)
@@ -553,22 +509,23 @@ Proof.
   destruct s as [|c s'].
   - injection Hspec as <- <-. cbn [length Nat.add]. rewrite perform_first. cbn. split; [reflexivity | discriminate].
   - cbn [length]. change (2 + S (length s')) with (S (2 + length s')). rewrite perform_first.
-    change x00 with NUL in Hspec. change x0a with LF in Hspec.
+    change x00 with NUL in Hspec.
     destruct (beq c NUL) eqn:Enul.
     + apply beq_eq in Enul. subst c. rewrite line_pure_first_nul.
       destruct (position_lf s') as [[|j]|] eqn:Hpos.
-      * (* NUL LF: an error in the code, a bare LF for the specification *)
+      * (* NUL LF: an error in the code, an LF without CR for the specification *)
         destruct s' as [|c2 r2]; [discriminate|]. cbn [position_lf] in Hpos.
         destruct (beq c2 LF) eqn:E2; [|destruct (position_lf r2); discriminate].
         cbn [spec_loop cut_line] in Hspec. change x0a with LF in Hspec. rewrite E2 in Hspec.
-        cbn in Hspec. injection Hspec as <- <-. split; discriminate.
+        cbn in Hspec. injection Hspec as <- <-. split; [reflexivity | discriminate].
       * pose proof (simulate (S (2 + length s')) x fds (S (length s')) PAuth false [] [] s' v k) as H.
         rewrite perform_norm in H. apply H; try lia. apply written_nil. exact Hspec.
       * pose proof (simulate (S (2 + length s')) x fds (S (length s')) PAuth false [] [] s' v k) as H.
         rewrite perform_norm in H. apply H; try lia. apply written_nil. exact Hspec.
-    + destruct (beq c LF) eqn:Elf.
-      * injection Hspec as <- <-. split; discriminate.
-      * injection Hspec as <- <-. apply beq_neq in Enul. apply beq_neq in Elf.
+    + injection Hspec as <- <-. apply beq_neq in Enul.
+      destruct (beq c LF) eqn:Elf.
+      * apply beq_eq in Elf. subst c. rewrite line_pure_first_lf. cbn. split; [reflexivity | discriminate].
+      * apply beq_neq in Elf.
         destruct (line_pure_first_other c s' Enul Elf) as [H | H]; rewrite H; cbn; split; try reflexivity; discriminate.
 Qed.
 
@@ -582,11 +539,10 @@ Proof.
   apply (server_sim cfg cs v k Hn E). exact Hk.
 Qed.
 
-(* no fuel exhaustion, and no panic unless a bare LF stands where a line should start *)
+(* no fuel exhaustion and no panic, on any stream *)
 Lemma server_safe : forall cfg cs,
   chunks_nonempty cs = true ->
-  (forall w, run_server cfg cs <> OErr EFuel w) /\
-  (empty_line_ahead (stream_of cs) true = false -> forall w, run_server cfg cs <> OPanic w).
+  (forall w, run_server cfg cs <> OErr EFuel w) /\ (forall w, run_server cfg cs <> OPanic w).
 Proof.
   intros cfg cs Hn. rewrite (run_server_norm _ _ Hn).
   set (x := ctx_of cfg). set (s := stream_of cs). set (fds := fds_of cs).
@@ -595,25 +551,13 @@ Proof.
   - cbn [length]. change (2 + S (length s')) with (S (2 + length s')). rewrite perform_first.
     destruct (beq c NUL) eqn:Enul.
     + apply beq_eq in Enul. subst c. rewrite line_pure_first_nul.
-      destruct (position_lf s') as [[|j]|] eqn:Hpos.
-      * split; intros; discriminate.
-      * pose proof (safe_norm (S (2 + length s')) x WaitingForAuth false [] s' fds) as H.
-        rewrite (perform_norm _ x PAuth) in H. destruct H as [A Bp]; [lia | right; exists PAuth; reflexivity |].
-        split; [exact A|]. intro He. apply Bp.
-        (* the first segment of s' is not empty *)
-        destruct s' as [|c2 r2]; [discriminate|]. cbn [position_lf] in Hpos. cbn [empty_line_ahead] in He |- *.
-        change (beq NUL x0a) with false in He. cbv iota in He.
-        change x0a with LF in *. destruct (beq c2 LF); [discriminate|]. exact He.
-      * pose proof (safe_norm (S (2 + length s')) x WaitingForAuth false [] s' fds) as H.
-        rewrite (perform_norm _ x PAuth) in H. destruct H as [A Bp]; [lia | right; exists PAuth; reflexivity |].
-        split; [exact A|]. intro He. apply Bp.
-        destruct s' as [|c2 r2]; [reflexivity|]. cbn [position_lf] in Hpos. cbn [empty_line_ahead] in He |- *.
-        change (beq NUL x0a) with false in He. cbv iota in He.
-        change x0a with LF in *. destruct (beq c2 LF); [discriminate|]. exact He.
-    + destruct (beq c LF) eqn:Elf.
-      * apply beq_eq in Elf. subst c. rewrite line_pure_first_lf. split; [intros; discriminate|].
-        cbn. discriminate.
-      * apply beq_neq in Enul. apply beq_neq in Elf.
+      pose proof (safe_norm (S (2 + length s')) x WaitingForAuth false [] s' fds) as H.
+      rewrite (perform_norm _ x PAuth) in H.
+      destruct (position_lf s') as [[|j]|] eqn:Hpos; try (apply H; [lia | right; exists PAuth; reflexivity]).
+      split; intros; discriminate.
+    + apply beq_neq in Enul. destruct (beq c LF) eqn:Elf.
+      * apply beq_eq in Elf. subst c. rewrite line_pure_first_lf. split; intros; discriminate.
+      * apply beq_neq in Elf.
         destruct (line_pure_first_other c s' Enul Elf) as [H | H]; rewrite H; split; intros; discriminate.
 Qed.
 
@@ -720,17 +664,17 @@ Proof.
     + intros [? [? [? ?]]]. discriminate.
 Qed.
 
-(* completion is never granted wrongly, also when a malformed line cuts the conversation short *)
-Theorem auth_sound_partial : forall cfg cs,
+(* completion is never granted wrongly: no exclusion of streams, also when a malformed line cuts the conversation short *)
+Theorem auth_sound : forall cfg cs,
   chunks_nonempty cs = true ->
-  known_class (ctx_of cfg) (stream_of cs) = None \/ known_class (ctx_of cfg) (stream_of cs) = Some KMalformed ->
   spec_verdict (ctx_of cfg) (stream_of cs) <> VUnclear ->
   is_done (run_server cfg cs) = true -> accepts (ctx_of cfg) (stream_of cs).
 Proof.
-  intros cfg cs Hn [Hk | Hk] Hu Hd.
-  - apply (auth_partial cfg cs Hn Hk Hu). exact Hd.
+  intros cfg cs Hn Hu Hd.
+  destruct (known_class (ctx_of cfg) (stream_of cs)) as [[]|] eqn:Hk.
   - unfold known_class in Hk. destruct (spec_server (ctx_of cfg) (stream_of cs)) as [v k] eqn:E. cbn in Hk. subst k.
     destruct (server_sim cfg cs v _ Hn E) as [_ H]. rewrite (H eq_refl) in Hd. discriminate.
+  - apply (auth_partial cfg cs Hn Hk Hu). exact Hd.
 Qed.
 
 Theorem replies_partial : forall cfg cs rs,
@@ -746,19 +690,16 @@ Proof.
   - repeat (apply andb_true_iff in Hc; destruct Hc as [Hc ?]). exact Hc.
 Qed.
 
-Theorem nopanic_partial : forall cfg cs,
-  chunks_nonempty cs = true ->
-  empty_line_ahead (stream_of cs) true = false ->
-  is_panic (run_server cfg cs) = false.
+Theorem nopanic : forall cfg cs, chunks_nonempty cs = true -> is_panic (run_server cfg cs) = false.
 Proof.
-  intros cfg cs Hn He. destruct (server_safe cfg cs Hn) as [_ H]. specialize (H He).
+  intros cfg cs Hn. destruct (server_safe cfg cs Hn) as [_ H].
   destruct (run_server cfg cs); try reflexivity. exfalso. apply (H w). reflexivity.
 Qed.
 
 Theorem fuel_sufficient : forall cfg cs w, chunks_nonempty cs = true -> run_server cfg cs <> OErr EFuel w.
 Proof. intros cfg cs w Hn. destruct (server_safe cfg cs Hn) as [H _]. apply H. Qed.
 
-(* ---------------------------------------------------------------- the full statement and what refutes it *)
+(* ---------------------------------------------------------------- the full statement and what still refutes it *)
 Definition full_statement : Prop :=
   forall cfg cs, chunks_nonempty cs = true ->
     conforms (ctx_of cfg) (spec_verdict (ctx_of cfg) (stream_of cs)) (fds_of cs) (obs_of (run_server cfg cs)) = true.
@@ -766,25 +707,8 @@ Definition full_statement : Prop :=
 Definition guid0 : bytes := B "0123456789abcdef0123456789abcdef".
 Definition cfg_ext (uid : option N) : scfg := mkScfg (Some External) Anonymous uid false guid0.
 
-(* \0AUTH\r\n\n : a bare LF after a line *)
-Definition w_lf : list chunk := [mkChunk (x00 :: B "AUTH" ++ [x0d; x0a; x0a]) []].
-(* \0AUTH EXTERNAL\r\nDATA\r\nBEGIN\r\n with unknown credentials *)
-Definition w_bare : list chunk :=
-  [mkChunk (x00 :: B "AUTH EXTERNAL" ++ [x0d; x0a] ++ B "DATA" ++ [x0d; x0a] ++ B "BEGIN" ++ [x0d; x0a]) []].
 (* \0FOO\r\n *)
 Definition w_foo : list chunk := [mkChunk (x00 :: B "FOO" ++ [x0d; x0a]) []].
-
-Theorem lf_panic_refuted :
-  exists cfg cs, chunks_nonempty cs = true /\ is_panic (run_server cfg cs) = true.
-Proof. exists (cfg_ext (Some 1000%N)), w_lf. split; vm_compute; reflexivity. Qed.
-
-Theorem bare_data_refuted :
-  exists cfg cs, chunks_nonempty cs = true /\ sc_mech cfg = External /\ sc_uid cfg = None /\
-                 is_done (run_server cfg cs) = true /\ ~ accepts (ctx_of cfg) (stream_of cs).
-Proof.
-  exists (cfg_ext None), w_bare. repeat split; try (vm_compute; reflexivity).
-  rewrite accepts_iff_done. intros [rs [fd [tail H]]]. vm_compute in H. discriminate.
-Qed.
 
 Theorem malformed_abort_refuted :
   exists cfg cs, chunks_nonempty cs = true /\
@@ -794,7 +718,7 @@ Proof. exists (cfg_ext (Some 1000%N)), w_foo. repeat split; vm_compute; reflexiv
 
 Theorem full_statement_refuted : ~ full_statement.
 Proof.
-  intro H. specialize (H (cfg_ext (Some 1000%N)) w_lf eq_refl). vm_compute in H. discriminate.
+  intro H. specialize (H (cfg_ext (Some 1000%N)) w_foo eq_refl). vm_compute in H. discriminate.
 Qed.
 
 (* ---------------------------------------------------------------- instances (non-vacuity) *)
@@ -813,8 +737,7 @@ Proof. repeat split; try (vm_compute; reflexivity). intro H. discriminate. Qed.
 
 Example ex_conforms :
   known_class (ctx_of ex_cfg) (stream_of ex_chunks2) = None /\
-  spec_verdict (ctx_of ex_cfg) (stream_of ex_chunks2) = VDone [ROk; RAgree] true (B "xyz") /\
-  empty_line_ahead (stream_of ex_chunks2) true = false.
+  spec_verdict (ctx_of ex_cfg) (stream_of ex_chunks2) = VDone [ROk; RAgree] true (B "xyz").
 Proof. repeat split; vm_compute; reflexivity. Qed.
 
 (* a rejected identity, a cancelled attempt and a misplaced BEGIN: REJECTED, REJECTED, ERROR, then EOF *)
@@ -822,6 +745,30 @@ Example ex_replies :
   let s := x00 :: B "AUTH EXTERNAL 31303031" ++ [x0d; x0a] ++ B "CANCEL" ++ [x0d; x0a] ++ B "BEGIN" ++ [x0d; x0a] in
   known_class (ctx_of ex_cfg) s = None /\ spec_verdict (ctx_of ex_cfg) s = VFail [RRejected; RRejected; RError].
 Proof. split; vm_compute; reflexivity. Qed.
+
+(* the repaired defects are inside the theorems now:
+   an unknown mechanism name is answered REJECTED and the conversation goes on to a proper authentication *)
+Example ex_unknown_mechanism :
+  let s := x00 :: B "AUTH DBUS_COOKIE_SHA1 31303030" ++ [x0d; x0a] ++ B "AUTH EXTERNAL 31303030" ++ [x0d; x0a]
+               ++ B "BEGIN" ++ [x0d; x0a] in
+  known_class (ctx_of ex_cfg) s = None /\ spec_verdict (ctx_of ex_cfg) s = VDone [RRejected; ROk] false [] /\
+  run_server ex_cfg [mkChunk s []] =
+    ODone (B "REJECTED EXTERNAL" ++ [x0d; x0a] ++ B "OK " ++ guid0 ++ [x0d; x0a]) false [] [].
+Proof. repeat split; vm_compute; reflexivity. Qed.
+
+(* EXTERNAL with unknown credentials: the empty identity is REJECTED, BEGIN is then misplaced *)
+Example ex_bare_data_unknown_creds :
+  let s := x00 :: B "AUTH EXTERNAL" ++ [x0d; x0a] ++ B "DATA" ++ [x0d; x0a] ++ B "BEGIN" ++ [x0d; x0a] in
+  known_class (ctx_of (cfg_ext None)) s = None /\
+  spec_verdict (ctx_of (cfg_ext None)) s = VFail [RData; RRejected; RError] /\
+  is_done (run_server (cfg_ext None) [mkChunk s []]) = false.
+Proof. repeat split; vm_compute; reflexivity. Qed.
+
+(* a bare LF after a line: an error, no panic *)
+Example ex_bare_lf :
+  run_server (cfg_ext (Some 1000%N)) [mkChunk (x00 :: B "AUTH" ++ [x0d; x0a; x0a]) []] =
+  OErr EHandshake (B "REJECTED EXTERNAL" ++ [x0d; x0a]).
+Proof. vm_compute. reflexivity. Qed.
 
 (* the specification's own fuel is never the reason for a verdict *)
 Lemma spec_loop_fuel : forall f1 f2 x st fd rs s,
